@@ -111,7 +111,21 @@ func (its *DatatypeManager) SyncAll() errors.OrdaError {
 
 // syncIfNeedPull enables the datatype of the specified key and sseq to be synchronized if needed.
 func (its *DatatypeManager) syncIfNeedPull(data iface.WiredDatatype, sseq uint64) errors.OrdaError {
-	if data.NeedPull(sseq) {
+	if !data.NeedPull(sseq) {
+		return nil
+	}
+	// The syncs of a client must not overlap: two requests that are sent with the same checkpoint pull
+	// the same operations, and if their responses are applied at the same time both apply them.
+	if err := its.sema.Acquire(its.ctx.Ctx(), 1); err != nil {
+		return errors.ClientSync.New(its.ctx.L(), err.Error())
+	}
+	defer func() {
+		its.sema.Release(1)
+		if data.NeedPush() { // a local operation gave up on the semaphore meanwhile
+			its.DeliverTransaction(data)
+		}
+	}()
+	if data.NeedPull(sseq) { // the sync that held the semaphore may have pulled it already
 		its.ctx.L().Infof("need to sync after notification: %s (sseq:%d)", data.GetKey(), sseq)
 		return its.sync(data)
 	}
